@@ -117,7 +117,12 @@ def _work_theorem(args):
         # bounded stand-in: runtime contract check of the real code over a stated finite input set; never 'proved'
         n = 0
         distinct, checked, samples = set(), 0, []
-        for inp in thm.options["bounded_inputs"]():
+        import itertools
+        more = thm.options.get("thorough_inputs")
+        stream = thm.options["bounded_inputs"]()
+        if tier == "thorough" and more is not None:
+            stream = itertools.chain(stream, more(seed))     # thorough tier: a larger, seed-dependent input set
+        for inp in stream:
             r = replay.native_check(thm, inp)
             n += 1
             h_ = hash(repr(sorted(inp.items(), key=lambda kv: kv[0])))
@@ -129,7 +134,7 @@ def _work_theorem(args):
             if r["status"] == "violation":
                 out["native_violation"] = {"inputs_repr": repr(inp), "result": r}
                 break
-        out["bounded"] = {"cases": n, "bound": thm.options.get("bound", ""), "checked": checked,
+        out["bounded"] = {"cases": n, "bound": thm.options.get("bound", "") + (" + thorough tier: " + thm.options.get("thorough_bound", "") if tier == "thorough" and more is not None else ""), "checked": checked,
                           "distinct": len(distinct), "samples": samples}
         out["wall_s"] = time.time() - t0
         return out
